@@ -51,9 +51,19 @@ theorem C17_no_database_selected (s : Sess) (st : Stmt) (h : routed st = true) (
 
 /-- **C17.create_existing**: creating a database that exists (names compared in lower case) is an error
 that changes nothing. -/
-theorem C17_create_existing (s : Sess) (name : Bytes) (h : (getDB s (canon name)).isSome = true) :
+theorem C17_create_existing (s : Sess) (name : Bytes) (hv : validDbName name = true)
+    (h : (getDB s (canon name)).isSome = true) :
     exec s (.createDatabase name) = (s, .err "dbExists") := by
-  simp [exec, h]
+  simp [exec, h, hv]
+
+/-- **C17.invalid_name_refused**: a name that is not one plain directory name (`.`, `..`, a path
+separator or NUL inside, more than 255 bytes) is refused by CREATE DATABASE and by USE with an error
+that changes nothing, whatever exists - no database appears under a different name, nothing is opened
+twice, nothing is written outside the data directory (the repaired defect: `CREATE DATABASE "a/b"`). -/
+theorem C17_invalid_name_refused (s : Sess) (name : Bytes) (hv : validDbName name = false) :
+    exec s (.createDatabase name) = (s, .err "invalidDbName") ∧
+    exec s (.use name) = (s, .err "invalidDbName") := by
+  simp [exec, hv]
 
 /-- **C17.create_new**: a successful CREATE DATABASE adds exactly one database under the canonical name -
 with an empty log - and leaves the selection and every existing database alone. -/
@@ -61,8 +71,12 @@ theorem C17_create_new (s s' : Sess) (name : Bytes) (h : exec s (.createDatabase
     getDB s (canon name) = none ∧ names s' = names s ++ [canon name] ∧ s'.cur = s.cur ∧
     (∃ db, getDB s' (canon name) = some db ∧ db.wal = []) ∧
     ∀ m, m ≠ canon name → getDB s' m = getDB s m := by
+  have hv : validDbName name = true := by
+    cases hv : validDbName name with
+    | true => rfl
+    | false => simp [exec, hv] at h
   unfold exec at h
-  simp only at h
+  simp only [hv, Bool.not_true, Bool.false_eq_true, if_false] at h
   split at h
   · simp at h
   · rename_i hnone
@@ -87,12 +101,14 @@ theorem C17_create_new (s s' : Sess) (name : Bytes) (h : exec s (.createDatabase
 
 /-- **C17.use_missing**: selecting a database that does not exist is an error that changes nothing - in
 particular the previously selected database stays selected and open. -/
-theorem C17_use_missing (s : Sess) (name : Bytes) (h : getDB s (canon name) = none) :
+theorem C17_use_missing (s : Sess) (name : Bytes) (hv : validDbName name = true)
+    (h : getDB s (canon name) = none) :
     exec s (.use name) = (s, .err "dbNotExist") := by
-  simp [exec, h]
+  simp [exec, h, hv]
 
 /-- **C17.use_current**: re-selecting the selected database changes nothing at all. -/
-theorem C17_use_current (s : Sess) (name : Bytes) (h : (getDB s (canon name)).isSome = true)
+theorem C17_use_current (s : Sess) (name : Bytes) (hv : validDbName name = true)
+    (h : (getDB s (canon name)).isSome = true)
     (hc : s.cur = some (canon name)) : exec s (.use name) = (s, .ok) := by
   have hn : (getDB s (canon name)).isNone = false := by
     cases hg : getDB s (canon name) <;> simp_all
@@ -100,19 +116,20 @@ theorem C17_use_current (s : Sess) (name : Bytes) (h : (getDB s (canon name)).is
   | mk dbs cur =>
     simp only at hc
     subst hc
-    simp [exec, hn]
+    simp [exec, hn, hv]
 
 /-- **C17.use_other**: selecting another existing database succeeds, selects it, keeps the set of
 databases, and leaves every database other than the previously selected one (which is closed, i.e.
 flushed) exactly as it was. -/
-theorem C17_use_other (s : Sess) (name : Bytes) (h : (getDB s (canon name)).isSome = true) :
+theorem C17_use_other (s : Sess) (name : Bytes) (hv : validDbName name = true)
+    (h : (getDB s (canon name)).isSome = true) :
     (exec s (.use name)).2 = .ok ∧ (exec s (.use name)).1.cur = some (canon name) ∧
     names (exec s (.use name)).1 = names s ∧
     ∀ m, s.cur ≠ some m → getDB (exec s (.use name)).1 m = getDB s m := by
   have hn : (getDB s (canon name)).isNone = false := by
     cases hg : getDB s (canon name) <;> simp_all
   unfold exec
-  simp only [hn, Bool.false_eq_true, if_false]
+  simp only [hv, Bool.not_true, hn, Bool.false_eq_true, if_false]
   refine ⟨by trivial, by trivial, ?_, ?_⟩
   · show names _ = names s
     split
@@ -161,16 +178,23 @@ def created : List Stmt → List Out → List String
   | _ :: sts, _ :: outs => created sts outs
   | _, _ => []
 
+/-- non-vacuity: `a/b`, `..` are refused, `plain` is a name -/
+example : validDbName [97, 47, 98] = false ∧ validDbName [46, 46] = false ∧ validDbName [112, 108, 97, 105, 110] = true := by
+  decide
+
 theorem exec_create_fst (s : Sess) (n : Bytes) (h : (exec s (.createDatabase n)).2 ≠ .ok) :
     (exec s (.createDatabase n)).1 = s := by
-  unfold exec at h ⊢
-  simp only at h ⊢
-  split
-  · rfl
-  · split
-    · rename_i hx _ _ _ hy
-      simp [hx, hy] at h
+  cases hv : validDbName n with
+  | false => simp [exec, hv]
+  | true =>
+    unfold exec at h ⊢
+    simp only [hv, Bool.not_true, Bool.false_eq_true, if_false] at h ⊢
+    split
     · rfl
+    · split
+      · rename_i hx _ _ _ hy
+        simp [hx, hy] at h
+      · rfl
 
 theorem names_exec (s : Sess) (st : Stmt) :
     names (exec s st).1 = names s ++ created [st] [(exec s st).2] := by
@@ -191,12 +215,15 @@ theorem names_exec (s : Sess) (st : Stmt) :
       have : (exec s (.createDatabase n)).1 = s := exec_create_fst s n (by rw [ho]; simp)
       simp [this, created]
   | use n =>
-    by_cases h : (getDB s (canon n)).isSome = true
-    · have := (C17_use_other s n h).2.2.1
-      cases ho : (exec s (.use n)).2 <;> simp [this, created]
-    · have hn : getDB s (canon n) = none := by
-        cases hg : getDB s (canon n) <;> simp_all
-      rw [C17_use_missing s n hn]; simp [created]
+    cases hv : validDbName n with
+    | false => rw [(C17_invalid_name_refused s n hv).2]; simp [created]
+    | true =>
+      by_cases h : (getDB s (canon n)).isSome = true
+      · have := (C17_use_other s n hv h).2.2.1
+        cases ho : (exec s (.use n)).2 <;> simp [this, created]
+      · have hn : getDB s (canon n) = none := by
+          cases hg : getDB s (canon n) <;> simp_all
+        rw [C17_use_missing s n hv hn]; simp [created]
   | showDatabases => simp [exec, created]
   | createTable name cols =>
     have := (C17_frame s (.createTable name cols) rfl).2.1
